@@ -1046,6 +1046,11 @@ Case generate(vf::Src& src, const std::string& mode)
         gen_c14(src, c);
     else
         throw std::runtime_error("unknown mode " + mode);
+    // part of the declaration may be made only after a first parse() on the object (c02 and c14
+    // decide that themselves)
+    if ((mode == "c01" || mode == "c03" || mode == "c04" || mode == "c11" || mode == "c12") &&
+        c.e.size() >= 2 && src.coin(12))
+        c.late = src.irange(1, static_cast<int>(c.e.size()) - 1);
     // The outcome belongs to the declaration, not to the object it was made on: now and then the
     // parser is moved (by construction, or by assignment onto a parser that was already used)
     if (mode != "c03ex" && mode != "c11ex" && src.coin(15))
